@@ -28,9 +28,9 @@ done
 go test -count=1 -vet=off ./pkg/... > /dev/null 2>&1 || SUITE="$SUITE pkg-all-FAILED"
 LOC=$(head -1 $M/m${N}_demo_test.go | sed -n 's/.*place in: *\([^ ]*\).*/\1/p'); LOC=${LOC%/}; [ -z "$LOC" ] && LOC=.
 cp $M/m${N}_demo_test.go $WT/$LOC/zz_m${N}_demo_test.go
-WITH=$(cd $WT/$LOC && go test -count=1 -vet=off ${TAGS:+-tags $TAGS} -run 'M'$N'|Demo|Mutant|C[0-9][0-9]' -timeout 10m . 2>&1 | tail -1)
+WITH=$(cd $WT/$LOC && go test -count=1 -vet=off ${TAGS:+-tags $TAGS} -run 'M'$N'|Demo|Mut|C[0-9][0-9]' -timeout 10m . 2>&1 | tail -1)
 git apply -R $M/m$N.diff
-WITHOUT=$(cd $WT/$LOC && go test -count=1 -vet=off ${TAGS:+-tags $TAGS} -run 'M'$N'|Demo|Mutant|C[0-9][0-9]' -timeout 10m . 2>&1 | tail -1)
+WITHOUT=$(cd $WT/$LOC && go test -count=1 -vet=off ${TAGS:+-tags $TAGS} -run 'M'$N'|Demo|Mut|C[0-9][0-9]' -timeout 10m . 2>&1 | tail -1)
 rm -f $WT/$LOC/zz_m${N}_demo_test.go
 git checkout -q -- . && git clean -fdq
 echo "CONFIRM $P m$N: suite=$SUITE | demo-with: $WITH | demo-without: $WITHOUT"
